@@ -56,9 +56,21 @@ theorem detect_raw {cfg : GenCfg} {o : GenOracles} {g : ModelLookup} {K : String
     {cd : Bool} {v : Json} {t : Ty} (wf : Json.WF v) (h : detect cfg o cd v = .ok t) : Ty.Raw K t :=
   (detect_spec_all cfg o g K hK hs cd v t wf h).2
 
-/-- `Json.WF` is needed: with a repeated key the second value is checked against the first field. -/
+/-- non-vacuity of `Json.WF` -/
 example : Json.WF (.obj [("a", .arr [.int 1, .null]), ("b", .str "x")]) := by
   simp [Json.WF, Json.WFKvs, Json.WFList]
+
+/-- `Json.WF` is needed: with a repeated key (impossible after `json.load`) the field list keeps both
+    entries and the second value is checked against the first field. -/
+theorem detect_dup_keys :
+    detect cfgW oW true (.obj [("a", .int 1), ("a", .null)]) = .ok (.obj [("a", .int), ("a", .null)]) ∧
+    ¬ InhR oW.accepts (fun _ => none) (.obj [("a", .int), ("a", .null)]) (.obj [("a", .int 1), ("a", .null)]) := by
+  refine ⟨rfl, ?_⟩
+  intro h
+  cases h with
+  | obj a b c =>
+    have := b ("a", .null) (by simp) .int (by simp [Fields.get?_cons])
+    cases this
 
 /-! ## 2. `DUnion.__init__` -/
 
@@ -301,6 +313,13 @@ theorem detect_inh_names {cfg : GenCfg} {o : GenOracles} {g : ModelLookup}
     InhR o.accepts g t v :=
   detect_inh_partial (K := fun k => k ∈ cfg.reg.types) (fun _ hk => hk) (hashSoundOn_good hnames) wf h
 
+/-- **C01.1, strict form, without abstract hash hypothesis** -/
+theorem detect_inh_strict_names {cfg : GenCfg} {o : GenOracles}
+    (hnames : ∀ k ∈ cfg.reg.types, wfSerName k = true)
+    {cd : Bool} {v : Json} {t : Ty} (wf : Json.WF v) (h : detect cfg o cd v = .ok t) (hn : Ty.NoOv t) :
+    Inh o.accepts (fun _ => none) t v :=
+  detect_inh_strict (K := fun k => k ∈ cfg.reg.types) (fun _ hk => hk) (hashSoundOn_good hnames) wf h hn
+
 /-- **C01.2 without hash hypothesis**: for well-formed member types -/
 theorem mkUnion_sound_wf {acc : Accepts} {g : ModelLookup} {c : LitCfg} {ts : List Ty} {t : Ty} {v : Json}
     (hwf : ∀ a ∈ flattenUnion ts, a.WFHash) (ht : t ∈ flattenUnion ts) (hi : Inh acc g t v) :
@@ -341,7 +360,10 @@ theorem optimize_sound_Statement_false : ¬ optimize_sound_Statement :=
   optimize_sound_false ⟨fun _ _ => none, fun _ => none, fun _ => False,
     hashSoundOn_good (fun _ h => h.elim)⟩
 
-/-! ### non-vacuity: a concrete configuration, oracle and two samples -/
+/-! ### non-vacuity: a concrete configuration, oracle and two samples
+
+`"1"` is an `IntString`, `"1.5"` only a `FloatString` (resolved to `FloatString`); `[1, null]` and `[0.0]`
+give `List[Optional[float]]`; `"hello"` and a 38-character string (overflowed literal) give `str`. -/
 
 def regE : StrRegistry := ⟨["IntString", "FloatString"], [("IntString", "FloatString")], []⟩
 def cfgE : GenCfg := ⟨⟨15, 20⟩, regE, [], []⟩
@@ -349,17 +371,68 @@ def accE : Accepts := fun k s =>
   if k == "IntString" then some (s == "1")
   else if k == "FloatString" then some (s == "1" || s == "1.5") else some false
 def oE : GenOracles := ⟨accE, fun _ _ => some false, StrOracle.default⟩
-def s1 : Json := .obj [("a", .str "1"), ("b", .arr [.int 1]), ("c", .obj [("x", .int 1)])]
-def s2 : Json := .obj [("a", .str "1"), ("b", .arr [.int 2]), ("c", .obj [("x", .int 3)]), ("d", .null)]
+def r1 : Json := .obj [("a", .str "1"), ("b", .arr [.int 1, .null]), ("d", .str "hello")]
+def r2 : Json := .obj [("a", .str "1.5"), ("b", .arr [.float 0]),
+  ("d", .str "a very long string, longer than twenty")]
+def setsR : List Fields :=
+  [[("a", .ser "IntString"), ("b", .list (.union [.int, .null])), ("d", .lit false ["hello"])],
+   [("a", .ser "FloatString"), ("b", .list .float), ("d", .lit true [])]]
+def fieldsR : Fields :=
+  [("a", .union [.ser "FloatString", .ser "IntString"]),
+   ("b", .union [.list .float, .list (.union [.int, .null])]),
+   ("d", .str)]
+def tyR : Ty := .obj [("a", .ser "FloatString"), ("b", .list (.opt .float)), ("d", .str)]
 
-example : generate cfgE oE [s1, s2] = .ok (.obj
-    [("a", .ser "IntString"), ("b", .list .int), ("c", .obj [("x", .int)]), ("d", .opt .null)]) := by rfl
+set_option maxRecDepth 4000 in
+theorem ex_convert : List.mapM (convert cfgE oE) [r1, r2] = .ok setsR := by
+  simp [r1, r2, setsR, cfgE, oE, regE, accE, convert, convertFields, detect, detectList, detectStr, detectStr.go,
+    wrapElems, mkLit, mkUnionMembers, flattenUnion, handleType, hashStr, Ty.isStr,
+    bind, Except.bind, pure, Except.pure]
+  decide
 
-example : ∀ s ∈ [s1, s2], Json.WF s := by
+set_option maxRecDepth 4000 in
+theorem ex_merge : mergeFieldSets cfgE.lit (genEnv oE) setsR = .ok fieldsR := by
+  simp [setsR, fieldsR, cfgE, genEnv,
+    mergeFieldSets, mergeFieldSets.go, mergeStep, mergeOne, Fields.get?, Fields.set, Fields.keys, Fields.has,
+    EqEnv.eq, pyEq, Ty.isOpt, Ty.unionMembers, bind, Except.bind, pure, Except.pure, List.foldlM,
+    mkUnionMembers, flattenUnion, handleType, hashStr, hashStrs, Ty.isStr]
+
+set_option maxRecDepth 8000 in
+theorem ex_opt_a (n : Nat) : optimize cfgE (genEnv oE) (n + 5) (.union [.ser "FloatString", .ser "IntString"]) =
+    .ok (.ser "FloatString") := by
+  simp [cfgE, regE, genEnv, optimize, optimizeUnion, splitMembers, resolve, dedupStr, replacedIn, mkUnion,
+    Ty.isInt, Ty.isFloat, Ty.isNull, Ty.isUnknown, Ty.isStr, bind, Except.bind, pure, Except.pure]
+
+set_option maxRecDepth 8000 in
+theorem ex_opt_b (n : Nat) :
+    optimize cfgE (genEnv oE) (n + 6) (.union [.list .float, .list (.union [.int, .null])]) =
+      .ok (.list (.opt .float)) := by
+  simp [cfgE, regE, genEnv, optimize, optimizeUnion, splitMembers, removeFirst, resolve, dedupStr, replacedIn,
+    mkUnion, Ty.isInt, Ty.isFloat, Ty.isNull, Ty.isUnknown, Ty.isStr, bind, Except.bind, pure, Except.pure,
+    mkUnionMembers, flattenUnion, handleType, hashStr]
+
+theorem ex_optimize (n : Nat) : optimize cfgE (genEnv oE) (n + 7) (.obj fieldsR) = .ok tyR := by
+  rw [optimize.eq_2]
+  simp only [fieldsR, List.mapM_cons, List.mapM_nil, ex_opt_a (n + 1), ex_opt_b n]
+  rfl
+
+theorem ex_fuel : Ty.fuelFor (.obj fieldsR) = 123 + 7 := by
+  simp [Ty.fuelFor, fieldsR, Ty.size, Ty.sizeFields, Ty.sizeList]
+
+theorem ex_generate : generate cfgE oE [r1, r2] = .ok tyR := by
+  rw [generate_eq, ex_convert]
+  simp only [bind, Except.bind]
+  rw [ex_merge]
+  simp only [ex_fuel]
+  exact ex_optimize 123
+
+theorem ex_wf : ∀ s ∈ [r1, r2], Json.WF s := by
   intro s hs; simp at hs
-  rcases hs with rfl | rfl <;> simp [s1, s2, Json.WF, Json.WFKvs, Json.WFList]
+  rcases hs with rfl | rfl <;> simp [r1, r2, Json.WF, Json.WFKvs, Json.WFList]
 
-example : ReplacesSound oE.accepts cfgE.reg := by
+theorem ex_names : ∀ k ∈ cfgE.reg.types, wfSerName k = true := by decide
+
+theorem ex_replacesSound : ReplacesSound oE.accepts cfgE.reg := by
   intro a b hab s
   simp [cfgE, regE] at hab
   obtain ⟨rfl, rfl⟩ := hab
@@ -368,11 +441,21 @@ example : ReplacesSound oE.accepts cfgE.reg := by
   have : s = "1" := by simpa using h
   subst this; rfl
 
-example : ∀ k ∈ cfgE.reg.types, wfSerName k = true := by decide
-
-example : ReplacesRanked cfgE.reg :=
+theorem ex_replacesRanked : ReplacesRanked cfgE.reg :=
   ⟨fun k => if k == "IntString" then 0 else 1, by
     intro p hp; simp [cfgE, regE] at hp; subst hp; decide⟩
+
+/-- all hypotheses of `generate_sound_names` hold for the instance, so both samples lie in `tyR` -/
+example : Inh oE.accepts (fun _ => none) tyR r1 ∧ Inh oE.accepts (fun _ => none) tyR r2 :=
+  ⟨generate_sound_names ex_wf ex_names ex_replacesSound ex_replacesRanked ex_generate (by simp),
+   generate_sound_names ex_wf ex_names ex_replacesSound ex_replacesRanked ex_generate (by simp)⟩
+
+/-- a second instance, checked by `rfl`: a key missing from the first sample becomes optional -/
+example : generate cfgE oE
+    [.obj [("a", .str "1"), ("b", .arr [.int 1]), ("c", .obj [("x", .int 1)])],
+     .obj [("a", .str "1"), ("b", .arr [.int 2]), ("c", .obj [("x", .int 3)]), ("d", .null)]] =
+    .ok (.obj [("a", .ser "IntString"), ("b", .list .int), ("c", .obj [("x", .int)]), ("d", .opt .null)]) := by
+  rfl
 
 end J2M.C01
 
@@ -399,3 +482,6 @@ end J2M.C01
 #print axioms J2M.C01.optimize_sound_names
 #print axioms J2M.C01.mergeFieldSets_sound_Statement_false
 #print axioms J2M.C01.optimize_sound_Statement_false
+#print axioms J2M.C01.detect_inh_strict_names
+#print axioms J2M.C01.detect_dup_keys
+#print axioms J2M.C01.ex_generate
